@@ -126,6 +126,16 @@ def gen_history(r, max_steps=30, max_nodes=8, allow_insert=True, depth=0, metada
                     base = h
             # links of the inserted part are unknown to the shadow; that only makes later
             # delete_link choices on them less likely, not wrong
+    if depth == 0 and r.random() < 0.35:
+        # end on a burst of deletions in arbitrary (not ascending) index order, with no node added afterwards:
+        # several free slots, with live nodes between them, at the moment the HUGR is observed / serialized
+        for _ in range(r.randint(2, 4)):
+            lv = st.leaves()
+            if not lv:
+                break
+            h = r.choice(lv)
+            hist.append(["delete_node", h])
+            st.delete(h)
     return hist
 
 
